@@ -22,6 +22,9 @@ RULE = ('Seeded 3-5 round histories on the linear-regression toy world (4-6 clie
         'freshly constructed algorithm object and on one constructed from a re-loaded copy of the algorithm\'s module. '
         'Non-trivial: >=3 rounds completed, a client participated twice with different keys, the state changed every round; '
         'distinct by (system, hyper-parameters, sizes, cohorts).')
+# Configuration shards (vmon.run): the cases of the plain shard with the given index are run once more in a process started
+# under an environment the library is supposed to be indifferent to.
+CONFIGS = {'quick': [], 'thorough': [{'name': 'rbg-prng', 'env': {'JAX_DEFAULT_PRNG_IMPL': 'rbg'}, 'shard': 2}]}
 ASSUMPTIONS = [
     'batching uses a fixed shuffle seed (or skip_shuffle): seed=None asks for OS entropy and is outside the statement',
     'client datasets are immutable inputs (their NumPy columns are set read-only by the harness)',
